@@ -6,6 +6,14 @@ import os
 VERIF = os.path.dirname(os.path.dirname(os.path.abspath(__file__)))
 
 CLAIMED = {
+    "C17": dict(cat="exploration", design="§5 C17", engine="bindgen",
+                text="cglue-bindgen runs unmodified on headers from a calibrated emulator of cbindgen's output shape (API models: plugin-api + seeded models incl. name clashes, consuming receivers, function-pointer arguments, mixed contexts, 6 tool configurations); for every root type mock vtables log root/trait/slot/container/argument checks and every emitted wrapper is called with sentinel arguments in a C driver under ASan+UBSan; the log is judged offline (slot identity, argument order, result, ownership counters and ordering of the context guard, completeness).",
+                note="Trusts the cbindgen emulator (calibrated against examples/pregen-headers/bindings.h); C mode only.",
+                tech="runtime monitoring: mock-vtable call logs from a generated C driver + offline checker"),
+    "C18": dict(cat="exploration", design="§5 C18", engine="bindgen",
+                text="For every emulated header: 8-16 runs in fresh processes must be byte-identical, gcc -std=c99 and clang must accept a TU that only includes the output, every injected foreign declaration (adversarially named) must be present verbatim and in order; command-line cases check the `--` split, -o/--output capture, +nightly and the config source through a logging fake cbindgen/rustup.",
+                note="Trusts the cbindgen emulator; C mode (the C++ generator is not exercised: no calibrated C++ emulation exists).",
+                tech="runtime monitoring: repeated tool executions + compilers as acceptors + text oracles"),
     "C05": dict(cat="exploration", design="§5 C05", engine="xmod",
                 text="A host binary dlopen()s a plugin cdylib built separately by another compiler version / optimisation level / repr(Rust) layout seed, each with its own tagging allocator and payload registry; seeded lifecycle histories over plugin-made objects are compared with the same histories on host-made objects, and both allocators watch for foreign or mis-sized frees and leftover instances.",
                 note="Four installed toolchains only; both modules share the OS allocator underneath, ownership is observed by the per-module tracking tables.",
@@ -111,6 +119,7 @@ def main():
                    baseline_off_cmd="cd /repo && cargo test --workspace --no-fail-fast --offline",
                    source_commits=[], add_only=True),
         engines=[
+            dict(name="bindgen", path="bindgen/", serves_properties=["C17", "C18"], kind_free_text="cbindgen output-shape emulator, fake cbindgen/rustup, C driver generator and offline oracle for cglue-bindgen"),
             dict(name="xmod", path="xmod/", serves_properties=["C05"], kind_free_text="shared API crate, plugin cdylib and host binary built by different toolchains"),
             dict(name="cview", path="cview/", serves_properties=["C16"], kind_free_text="C header of the published runtime-type declarations, C driver, Rust staticlib of constructors/consumers/counters"),
             dict(name="probe", path="probe/", serves_properties=["C09"], kind_free_text="auto-trait matrix probe and safe-code race witnesses"),
